@@ -16,6 +16,8 @@ func (kgraph *KVGraph) AddGraph(graph string) error {
 		return err
 	}
 
+	kgraph.graphMu.Lock()
+	defer kgraph.graphMu.Unlock()
 	kgraph.ts.Touch(graph)
 	err = kgraph.setupGraphIndex(graph)
 	if err != nil {
@@ -26,6 +28,8 @@ func (kgraph *KVGraph) AddGraph(graph string) error {
 
 // DeleteGraph deletes `graph`
 func (kgraph *KVGraph) DeleteGraph(graph string) error {
+	kgraph.graphMu.Lock()
+	defer kgraph.graphMu.Unlock()
 	kgraph.ts.Touch(graph)
 
 	eprefix := EdgeListPrefix(graph)
